@@ -168,6 +168,27 @@ struct PidSim
         if (u.bfuzz) SA.hfree(u.bfuzz);
         u = Unit();
     }
+    // the setters must install exactly the values they were given: the equations are claimed for the configured gains
+    bool verify_config(Unit &u, char const *site)
+    {
+        a_pid const *pd = P(u);
+        if ((double)pd->kp != kp || (double)pd->ki != ki || (double)pd->kd != kd)
+            return c.fail("setter-did-not-install-value", site, "gains in the controller are %.17g %.17g %.17g after setting %.17g %.17g %.17g", (double)pd->kp, (double)pd->ki, (double)pd->kd, kp, ki, kd);
+        if (ctype == 1)
+        {
+            a_pid_fuzzy const *f = u.fz;
+            if ((double)f->kp != kp || (double)f->ki != ki || (double)f->kd != kd) return c.fail("setter-did-not-install-value", site, "fuzzy base gains are %.17g %.17g %.17g after setting %.17g %.17g %.17g", (double)f->kp, (double)f->ki, (double)f->kd, kp, ki, kd);
+            if (f->nrule != order || f->me != me || f->mec != mec || f->mkp != ((nulltab & 1) ? nullptr : mkp) || f->mki != ((nulltab & 2) ? nullptr : mki) || f->mkd != ((nulltab & 4) ? nullptr : mkd))
+                return c.fail("setter-did-not-install-value", "a_pid_fuzzy_set_rule", "rule base pointers or order in the controller differ from what was set");
+            if (f->nfuzz != nfuzz || a_pid_fuzzy_bfuzz(f) != u.bfuzz) return c.fail("setter-did-not-install-value", "a_pid_fuzzy_set_bfuzz", "scratch buffer or its size in the controller differ from what was set");
+        }
+        if (ctype == 2)
+        {
+            a_pid_neuro const *n = u.nr;
+            if ((double)n->k != nk) return c.fail("setter-did-not-install-value", site, "output coefficient K is %.17g after setting %.17g", (double)n->k, nk);
+        }
+        return true;
+    }
     // apply the parameters in force to a unit through the public setters
     void configure(Unit &u)
     {
@@ -185,7 +206,14 @@ struct PidSim
         {
             c.site("a_pid_neuro_set_kpid"); a_pid_neuro_set_kpid(u.nr, nk, kp, ki, kd);
             c.site("a_pid_neuro_set_wpid"); a_pid_neuro_set_wpid(u.nr, wp, wi, wd);
+            verify_weights(u, "a_pid_neuro_set_wpid");
         }
+        verify_config(u, ctype == 0 ? "a_pid_set_kpid" : ctype == 1 ? "a_pid_fuzzy_set_kpid" : "a_pid_neuro_set_kpid");
+    }
+    bool verify_weights(Unit &u, char const *site)
+    {
+        if ((double)u.nr->wp != wp || (double)u.nr->wi != wi || (double)u.nr->wd != wd) return c.fail("setter-did-not-install-value", site, "weights in the controller are %.17g %.17g %.17g after setting %.17g %.17g %.17g", (double)u.nr->wp, (double)u.nr->wi, (double)u.nr->wd, wp, wi, wd);
+        return true;
     }
     void zero_unit(Unit &u)
     {
@@ -238,7 +266,8 @@ struct PidSim
             u.fz->set_opr(opr); u.fz->set_bfuzz(u.bfuzz, nfuzz); u.fz->set_rule(order, me, mec, (nulltab & 1) ? nullptr : mkp, (nulltab & 2) ? nullptr : mki, (nulltab & 4) ? nullptr : mkd); u.fz->set_kpid(kp, ki, kd); u.fz->init();
             if (u.fz->bfuzz() != u.bfuzz || a_pid_fuzzy_bfuzz(u.fz) != u.bfuzz) c.fail("scratch-buffer-accessor-wrong", "a_pid_fuzzy_bfuzz", "the scratch-buffer accessor does not return the buffer that was installed");
         }
-        else { u.nr->set_kpid(nk, kp, ki, kd); u.nr->set_wpid(wp, wi, wd); u.nr->init(); }
+        else { u.nr->set_kpid(nk, kp, ki, kd); u.nr->set_wpid(wp, wi, wd); u.nr->init(); verify_weights(u, "C++ member wrapper"); }
+        verify_config(u, "C++ member wrapper");
     }
     char const *step_name() const
     {
@@ -563,6 +592,7 @@ struct PidSim
                     else { c.site("a_pid_neuro_set_kpid"); a_pid_neuro_set_kpid(U[k].nr, nk, kp, ki, kd); }
                 }
                 if (U[3].alive) { if (ctype == 0) U[3].pid->set_kpid(kp, ki, kd); else if (ctype == 1) U[3].fz->set_kpid(kp, ki, kd); else U[3].nr->set_kpid(nk, kp, ki, kd); }
+                for (int k = 0; k < 4 && c.ok(); ++k) if (U[k].alive) verify_config(U[k], k == 3 ? "C++ member wrapper" : ctype == 0 ? "a_pid_set_kpid" : ctype == 1 ? "a_pid_fuzzy_set_kpid" : "a_pid_neuro_set_kpid");
                 pair_valid = false; // the lock-step claim needs constant gains
                 c.st.add("fault.operator_retune");
                 break;
@@ -598,7 +628,7 @@ struct PidSim
                 {
                     wp = value_of(regime, o.a[0], 24); wi = value_of(regime, o.a[1], 24); wd = value_of(regime, o.a[2], 24);
                     if ((mag64(o.a[3]) % 8) == 0) { wp = wi = wd = 0; c.st.add("probe.neuron_all_weights_zero"); }
-                    for (int k = 0; k < 3; ++k) if (U[k].alive) { c.site("a_pid_neuro_set_wpid"); a_pid_neuro_set_wpid(U[k].nr, wp, wi, wd); }
+                    for (int k = 0; k < 3; ++k) if (U[k].alive) { c.site("a_pid_neuro_set_wpid"); a_pid_neuro_set_wpid(U[k].nr, wp, wi, wd); verify_weights(U[k], "a_pid_neuro_set_wpid"); }
                     if (U[3].alive) U[3].nr->set_wpid(wp, wi, wd);
                 }
                 break;
